@@ -443,3 +443,330 @@ Example ex_shorthand_forces_cell : exists fl u ls p,
   lexec_matches lz_tree fl config0 [[]] ([] : list unit) (fun _ _ => None) lz_call 20 [(0, [(0, [0])])] (linit []) (polls0 None) = Ok (u, ls, p) /\
   l_scoped ls = [([118], SVForced [(0, LVar 0)])].
 Proof. do 4 eexists. split; [vm_compute; reflexivity|]. split; [reflexivity|]. split; [vm_compute; reflexivity|reflexivity]. Qed.
+
+(* ================= SCOPE SOUNDNESS: what the variable rules buy at run time =================
+   The checker's rules about UNSCOPED variables (UndefinedVariable, DuplicateVariable, CannotAssignImmutableVariable,
+   CannotHideGlobalVariable, CannotSetGlobalVariable) and about captures (UndefinedSyntaxCapture) exist so that the
+   interpreters never fail on them.  This part proves it for both interpreter models, for every tree, every list of
+   matches (consistent with the query or not: a capture that is missing from a match is a PANIC site of the model, finding
+   K8 / property C05, never one of the errors below), every function table that does not itself return such errors
+   (`call_clean`; the standard library qualifies), every fuel and every cancellation budget.
+
+   Vocabulary (Model/VarScope.v, Proofs/VarScope*.v)
+     shape m                  names and mutability of the frames of ANY `VariableMap` (the checker's, the strict and the lazy
+                              interpreter's), values forgotten; `get`/`add`/`set` succeed or fail according to the shape only
+     vs_stmt G sr sd env s    the scope discipline restated without the checker: every unscoped name read is a global (G) or
+                              bound in env; definitions are not globals and not yet in the innermost frame; `set` targets are
+                              visibly mutable non-globals; blocks get a fresh frame; sr / sd: scoped reads / scoped targets allowed
+     vs_env env s             the static environment after s
+     vs_file sr sd f          all stanzas (each from one empty frame) and all shorthand bodies of f satisfy the discipline
+     shorthands_scope_ok f    the shorthand part alone (K4: the checker does not visit shorthand bodies, so the theorems about
+                              CHECKED files assume it; trivially true without shorthands: `no_shorthands_scope_ok`)
+     file_sr f / file_sd f    (syntactic) a scoped read `e.x` occurs in f / a scoped variable is the target of let, var, set, node
+     supplied_declared f g    every global the CALLER supplies is declared in f (Appendix D: an undeclared supplied global makes a
+                              same-named `let` fail with DuplicateVariable — `ex_undeclared_supplied_global`)
+     variable_error e         the root cause of e is UndefinedVariable, DuplicateVariable, CannotAssignImmutableVariable or
+                              UndefinedCapture
+     scoped_duplicate e       e is DuplicateVariable raised directly inside a context that names TWO statements: the form in which
+                              LazyScopedVariables::force (and nothing else in the lazy interpreter) reports a duplicate SCOPED variable
+   Careful point: the STRICT interpreter reports an undefined / duplicate SCOPED variable with the same error values as
+   the unscoped cases (`scoped_get_at`, `scoped_add_at`, `scoped_set_at` of Model/Strict.v, as strict.rs does), so for it
+   the theorem says "UndefinedVariable only if the file contains a scoped read, DuplicateVariable only if it contains a
+   scoped target", and per statement the same with the flags of `vs_stmt`.  For the lazy interpreter the scoped duplicate
+   is recognisable from the error value, and an undefined scoped variable is a different error (UndefinedScopedVariable). *)
+From TSG Require Import Model.Exec Model.Strict Model.Lazy Model.VarScope Model.Stdlib
+  Proofs.VarScopeShape Proofs.VarScopeCheck Proofs.VarScopeHoare Proofs.VarScopeStrict Proofs.VarScopeLazy Proofs.VarScopeFlags Proofs.VarScopeRun.
+
+(* the checker enforces the discipline: statement by statement, with the environment it continues with ... *)
+Theorem checked_stmt_scope_discipline : forall cx env s s' env' u,
+  check_stmt cx env s = Ok (s', env', u) ->
+  vs_stmt (cx_global cx) true true (shape env) s' = true /\ shape env' = vs_env (shape env) s'.
+Proof. intros cx env s s' env' u. apply (check_stmt_vs cx (cx_global cx)). reflexivity. Qed.
+(* ... and for every stanza of an accepted file *)
+Theorem checked_scope_discipline : forall q f f',
+  check_file q f = CkOk f' -> vs_stanzas (is_global f') true true f' = true.
+Proof. intros q f f'. apply check_file_vs_with. Qed.
+Theorem checked_file_scope_discipline : forall q f f',
+  check_file q f = CkOk f' -> shorthands_scope_ok f' = true ->
+  vs_file true true f' = true /\ vs_file (file_sr f') (file_sd f') f' = true.
+Proof. exact checked_vs_file. Qed.
+Theorem no_shorthands_scope_ok : forall f, f_shorthands f = [] -> shorthands_scope_ok f = true.
+Proof. exact Proofs.VarScopeRun.no_shorthands_scope_ok. Qed.
+
+(* whether `get` / `add` / `set` of variables.rs succeed depends on the shape only (any value type) *)
+Theorem variable_ops_depend_on_shape : forall (V : Type) (m : varmap V) x v mu,
+  is_bound (shape m) x = (match varmap_get m x with Some _ => true | None => false end) /\
+  (can_add (shape m) x = true -> exists m', varmap_add m x v mu = inl m' /\ shape m' = lenv_bind (shape m) x mu) /\
+  (can_set (shape m) x = true -> exists m', varmap_set m x v = inl m' /\ shape m' = shape m).
+Proof.
+  intros V m x v mu. split; [apply is_bound_shape|]. split; intros H.
+  - destruct (varmap_add_ok m x v mu H) as [m' E]. exists m'. split; [exact E|]. exact (proj2 (varmap_add_inl _ _ _ _ _ E)).
+  - destruct (varmap_set_ok m x v H) as [m' E]. exists m'. split; [exact E|]. exact (proj2 (varmap_set_inl _ _ _ _ E)).
+Qed.
+
+(* reading an unscoped variable the discipline allows succeeds in any state whose frames have the static shape *)
+Theorem eval_unscoped_ok : forall t fl glob call (G : ident -> bool) fuel le x l env s p,
+  (forall y, G y = match globals_get glob y with Some _ => true | None => false end) ->
+  G x || is_bound env x = true -> shape (s_locals s) = env ->
+  exists v, eval t fl glob call (S fuel) le (EUnscoped x l) s p = Ok (v, s, p).
+Proof. exact eval_unscoped_ok_strict. Qed.
+Theorem leval_unscoped_ok : forall t fl glob call (G : ident -> bool) fuel le x l env s p,
+  (forall y, G y = match globals_get glob y with Some _ => true | None => false end) ->
+  G x || is_bound env x = true -> shape (l_locals s) = env ->
+  exists lv, leval t fl glob call (S fuel) le (EUnscoped x l) s p = Ok (lv, s, p).
+Proof. exact eval_unscoped_ok_lazy. Qed.
+
+(* THE INVARIANT, strict interpreter: a statement that satisfies the discipline, run in a state whose frames have exactly
+   the shape of the static environment, ends in a state whose frames have exactly the shape of the environment after the
+   statement — or fails with an error that is not a variable error of an unscoped name (loop bodies are judged once and run
+   many times: the frame is cleared at each iteration; blocks push and pop) *)
+Theorem scope_invariant_preserved_strict : forall (rx : Type) t fl cfg glob (regexes : list rx) find call G sr sd,
+  (forall x, G x = match globals_get glob x with Some _ => true | None => false end) -> call_clean call ->
+  vs_shorthands G sr fl = true ->
+  forall fuel le s env st p,
+  vs_stmt G sr sd env s = true -> shape (s_locals st) = env ->
+  match exec_stmt t fl cfg glob regexes find call fuel le s st p with
+  | Ok (_, st', _) => shape (s_locals st') = vs_env env s
+  | Err e => match root_cause e with
+             | ECannotAssignImmutableVariable | EUndefinedCapture => False
+             | EUndefinedVariable => sr = true
+             | EDuplicateVariable => sd = true
+             | _ => True
+             end
+  | _ => True
+  end.
+Proof.
+  intros rx t fl cfg glob regexes find call G sr sd HG Hcall Hsh fuel le s env st p Hs Hshape.
+  exact (hv_exec_stmt t fl cfg glob regexes find call G sr sd HG Hcall Hsh fuel le s env Hs st p Hshape).
+Qed.
+(* the same for the execution phase of the lazy interpreter *)
+Theorem scope_invariant_preserved_lazy : forall (rx : Type) t fl cfg glob (regexes : list rx) find call G,
+  (forall x, G x = match globals_get glob x with Some _ => true | None => false end) -> call_clean call ->
+  vs_shorthands G true fl = true ->
+  forall fuel le s env st p,
+  vs_stmt G true true env s = true -> shape (l_locals st) = env ->
+  match lexec_stmt t fl cfg glob regexes find call fuel le s st p with
+  | Ok (_, st', _) => shape (l_locals st') = vs_env env s
+  | Err e => match root_cause e with
+             | EUndefinedVariable | ECannotAssignImmutableVariable | EUndefinedCapture => False
+             | EDuplicateVariable => scoped_duplicate e = true
+             | _ => True
+             end
+  | _ => True
+  end.
+Proof.
+  intros rx t fl cfg glob regexes find call G HG Hcall Hsh fuel le s env st p Hs Hshape.
+  exact (hv_lexec_stmt t fl cfg glob regexes find call G HG Hcall Hsh fuel le s env Hs st p Hshape).
+Qed.
+
+(* WHOLE RUNS of a checked file.  Strict interpreter: never CannotAssignImmutableVariable, never UndefinedCapture;
+   UndefinedVariable only if the file contains a scoped read, DuplicateVariable only if it contains a scoped target *)
+Theorem checked_no_variable_errors_strict : forall (rx : Type) q f f' t cfg supplied budget (regexes : list rx) find call fuel matches g0 e,
+  check_file q f = CkOk f' -> shorthands_scope_ok f' = true -> supplied_declared f' supplied -> call_clean call ->
+  run_strict t f' cfg supplied budget regexes find call fuel matches g0 = Err e ->
+  match root_cause e with
+  | ECannotAssignImmutableVariable | EUndefinedCapture => False
+  | EUndefinedVariable => file_sr f' = true
+  | EDuplicateVariable => file_sd f' = true
+  | _ => True
+  end.
+Proof.
+  intros rx q f f' t cfg supplied budget regexes find call fuel matches g0 e Hc Hsh Hsup Hcall Hrun.
+  exact (run_strict_scope_ok t f' cfg regexes find call Hcall _ _ supplied budget fuel matches g0 e
+           (proj2 (checked_vs_file _ _ _ Hc Hsh)) Hsup Hrun).
+Qed.
+(* in particular: a checked file without scoped-variable syntax never fails with any of the four errors *)
+Theorem checked_no_variable_errors_strict_unscoped : forall (rx : Type) q f f' t cfg supplied budget (regexes : list rx) find call fuel matches g0 e,
+  check_file q f = CkOk f' -> shorthands_scope_ok f' = true -> supplied_declared f' supplied -> call_clean call ->
+  file_sr f' = false -> file_sd f' = false ->
+  run_strict t f' cfg supplied budget regexes find call fuel matches g0 = Err e -> variable_error e = false.
+Proof.
+  intros rx q f f' t cfg supplied budget regexes find call fuel matches g0 e Hc Hsh Hsup Hcall Hr Hd Hrun.
+  pose proof (checked_no_variable_errors_strict rx q f f' t cfg supplied budget regexes find call fuel matches g0 e Hc Hsh Hsup Hcall Hrun) as H.
+  unfold variable_error. destruct (root_cause e); try reflexivity; try contradiction; congruence.
+Qed.
+(* Lazy interpreter (execution AND evaluation phase): never UndefinedVariable, CannotAssignImmutableVariable,
+   UndefinedCapture; DuplicateVariable only as the duplicate definition of a SCOPED variable *)
+Theorem checked_no_variable_errors_lazy : forall (rx : Type) q f f' t cfg supplied budget (regexes : list rx) find call fuel matches g0 e,
+  check_file q f = CkOk f' -> shorthands_scope_ok f' = true -> supplied_declared f' supplied -> call_clean call ->
+  run_lazy t f' cfg supplied budget regexes find call fuel matches g0 = Err e ->
+  match root_cause e with
+  | EUndefinedVariable | ECannotAssignImmutableVariable | EUndefinedCapture => False
+  | EDuplicateVariable => scoped_duplicate e = true
+  | _ => True
+  end.
+Proof.
+  intros rx q f f' t cfg supplied budget regexes find call fuel matches g0 e Hc Hsh Hsup Hcall Hrun.
+  exact (run_lazy_scope_ok t f' cfg regexes find call Hcall supplied budget fuel matches g0 e
+           (proj1 (checked_vs_file _ _ _ Hc Hsh)) Hsup Hrun).
+Qed.
+(* the standard library returns none of the four errors *)
+Theorem stdlib_functions_clean : forall rx t, call_clean (stdlib_call rx t).
+Proof. exact stdlib_call_clean. Qed.
+
+(* THE SIMULATION, stated directly between the checker model and the interpreter models (files without attribute
+   shorthands): a statement the checker accepts in environment env, run in a state whose frames have the shape of env,
+   ends in a state whose frames have the shape of the environment the checker continues with; if it fails, the error is
+   not a variable error of an unscoped name — for the strict interpreter: UndefinedVariable only if THIS statement contains
+   a scoped read, DuplicateVariable only if it contains a scoped target *)
+Theorem checked_stmt_no_variable_errors_strict : forall (rx : Type) t fl cfg glob (regexes : list rx) find call cx env s s' env' u,
+  check_stmt cx env s = Ok (s', env', u) -> f_shorthands fl = [] ->
+  (forall x, cx_global cx x = match globals_get glob x with Some _ => true | None => false end) -> call_clean call ->
+  forall fuel le st p, shape (s_locals st) = shape env ->
+  match exec_stmt t fl cfg glob regexes find call fuel le s' st p with
+  | Ok (_, st', _) => shape (s_locals st') = shape env'
+  | Err e => match root_cause e with
+             | ECannotAssignImmutableVariable | EUndefinedCapture => False
+             | EUndefinedVariable => stmt_sr s' = true
+             | EDuplicateVariable => stmt_sd s' = true
+             | _ => True
+             end
+  | _ => True
+  end.
+Proof.
+  intros rx t fl cfg glob regexes find call cx env s s' env' u Hc Hsh HG Hcall fuel le st p Hshape.
+  destruct (checked_stmt_scope_discipline _ _ _ _ _ _ Hc) as [V1 V2]. rewrite V2.
+  apply (scope_invariant_preserved_strict rx t fl cfg glob regexes find call (cx_global cx) (stmt_sr s') (stmt_sd s') HG Hcall);
+    [unfold vs_shorthands; rewrite Hsh; reflexivity| |exact Hshape].
+  apply vs_stmt_flag; auto.
+Qed.
+Theorem checked_stmt_no_variable_errors_lazy : forall (rx : Type) t fl cfg glob (regexes : list rx) find call cx env s s' env' u,
+  check_stmt cx env s = Ok (s', env', u) -> f_shorthands fl = [] ->
+  (forall x, cx_global cx x = match globals_get glob x with Some _ => true | None => false end) -> call_clean call ->
+  forall fuel le st p, shape (l_locals st) = shape env ->
+  match lexec_stmt t fl cfg glob regexes find call fuel le s' st p with
+  | Ok (_, st', _) => shape (l_locals st') = shape env'
+  | Err e => match root_cause e with
+             | EUndefinedVariable | ECannotAssignImmutableVariable | EUndefinedCapture => False
+             | EDuplicateVariable => scoped_duplicate e = true
+             | _ => True
+             end
+  | _ => True
+  end.
+Proof.
+  intros rx t fl cfg glob regexes find call cx env s s' env' u Hc Hsh HG Hcall fuel le st p Hshape.
+  destruct (checked_stmt_scope_discipline _ _ _ _ _ _ Hc) as [V1 V2]. rewrite V2.
+  apply (scope_invariant_preserved_lazy rx t fl cfg glob regexes find call (cx_global cx) HG Hcall);
+    [unfold vs_shorthands; rewrite Hsh; reflexivity|exact V1|exact Hshape].
+Qed.
+
+(* ---- Examples ---- *)
+(* (identifier)* @id {
+     var n = 0   let x = 1
+     for y in @id { let x = y   set n = x   if #true { let x = 2   set n = x } }     -- shadowing in inner blocks, `var` set in a loop
+     print n, x } *)
+Definition vx_l : loc := (0, 0).
+Definition vx_n : ident := [110].
+Definition vx_x : ident := [120].
+Definition vx_y : ident := [121].
+Definition vx_body : list stmt :=
+  [SVar (VarU vx_n vx_l) (EInt 0) vx_l;
+   SLet (VarU vx_x vx_l) (EInt 1) vx_l;
+   SFor vx_y vx_l ex_cap
+     [SLet (VarU vx_x vx_l) (EUnscoped vx_y vx_l) vx_l;
+      SSet (VarU vx_n vx_l) (EUnscoped vx_x vx_l) vx_l;
+      SIf [([CBool ETrue vx_l], [SLet (VarU vx_x vx_l) (EInt 2) vx_l; SSet (VarU vx_n vx_l) (EUnscoped vx_x vx_l) vx_l], vx_l)] vx_l] vx_l;
+   SPrint [EUnscoped vx_n vx_l; EUnscoped vx_x vx_l] vx_l].
+Definition vx_checked : file :=
+  match check_file (ex_tables [ex_id; FULL_MATCH]) (ex_file vx_body []) with CkOk f' => f' | _ => ex_file [] [] end.
+(* one match: @id = nodes 5 and 6 (two loop iterations), full match = node 4 *)
+Definition vx_match : qmatch := [(0, [5; 6]); (1, [4])].
+Definition vx_find : unit -> str -> option (list (option (N * N))) := fun _ _ => None.
+
+Example vx_accepted : check_file (ex_tables [ex_id; FULL_MATCH]) (ex_file vx_body []) = CkOk vx_checked.
+Proof. vm_compute. reflexivity. Qed.
+Example vx_discipline : vs_file false false vx_checked = true /\ file_sr vx_checked = false /\ file_sd vx_checked = false.
+Proof. repeat split; vm_compute; reflexivity. Qed.
+(* the runs succeed; the frame of the stanza holds n (mutable) and the OUTER x afterwards *)
+Example vx_runs_strict : exists s p,
+  run_strict lz_tree vx_checked config0 [] None [] vx_find lz_call 30 [[vx_match]] [] = Ok (s, p) /\
+  s_locals s = [[(vx_n, (VInt 2, true)); (vx_x, (VInt 1, false))]].
+Proof. do 2 eexists. split; vm_compute; reflexivity. Qed.
+Example vx_runs_lazy : exists s p,
+  run_lazy lz_tree vx_checked config0 [] None [] vx_find lz_call 30 [(0, vx_match)] [] = Ok (s, p) /\
+  shape (l_locals s) = [[(vx_n, true); (vx_x, false)]].
+Proof. do 2 eexists. split; vm_compute; reflexivity. Qed.
+(* the theorems apply to it: whatever the tree, matches, fuel, budget — no variable error *)
+Example vx_theorem_applies_strict : forall t cfg budget fuel matches g0 e,
+  run_strict t vx_checked cfg [] budget [] vx_find lz_call fuel matches g0 = Err e -> variable_error e = false.
+Proof.
+  intros t cfg budget fuel matches g0 e.
+  apply (checked_no_variable_errors_strict_unscoped unit _ _ _ t cfg [] budget [] vx_find lz_call fuel matches g0 e vx_accepted);
+    try reflexivity.
+  - intros k v H. discriminate.
+  - intros f g args e0 [= <-]. reflexivity.
+Qed.
+Example vx_theorem_applies_lazy : forall t cfg budget fuel matches g0 e,
+  run_lazy t vx_checked cfg [] budget [] vx_find lz_call fuel matches g0 = Err e ->
+  root_cause e <> EUndefinedVariable /\ root_cause e <> ECannotAssignImmutableVariable /\ root_cause e <> EUndefinedCapture.
+Proof.
+  intros t cfg budget fuel matches g0 e Hrun.
+  assert (H := checked_no_variable_errors_lazy unit _ _ _ t cfg [] budget [] vx_find lz_call fuel matches g0 e vx_accepted eq_refl
+                 (fun k v (H : globals_get [] k = Some v) => ltac:(discriminate))
+                 (fun f g args e0 (H : lz_call f g args = Err e0) => ltac:(inversion H; reflexivity)) Hrun).
+  destruct (root_cause e); try contradiction; repeat split; discriminate.
+Qed.
+
+(* NEGATIVE 1: the hypothesis `check_file = CkOk` matters.  The unchecked AST of
+     (identifier)* @id { for y in @id { print x } }        -- x is not defined
+   is rejected by the checker (UndefinedVariable), and both interpreter models fail on it with UndefinedVariable *)
+Definition nx_file : file :=
+  {| f_globals := []; f_inherited := []; f_shorthands := [];
+     f_stanzas := [{| st_stmts := [SFor vx_y vx_l (ECapture ex_id QStar 0 0 vx_l) [SPrint [EUnscoped vx_x (2, 10)] vx_l] vx_l];
+                      st_full_stanza_idx := 1; st_full_file_idx := 1; st_start := (0, 0) |}] |}.
+Example nx_rejected : check_file (ex_tables [ex_id; FULL_MATCH]) nx_file = CkErr 9 (2, 10) [].
+Proof. vm_compute. reflexivity. Qed.
+Example nx_unchecked_fails_strict : exists e,
+  run_strict lz_tree nx_file config0 [] None [] vx_find lz_call 30 [[vx_match]] [] = Err e /\ root_cause e = EUndefinedVariable.
+Proof. eexists. split; vm_compute; reflexivity. Qed.
+Example nx_unchecked_fails_lazy : exists e,
+  run_lazy lz_tree nx_file config0 [] None [] vx_find lz_call 30 [(0, vx_match)] [] = Err e /\ root_cause e = EUndefinedVariable.
+Proof. eexists. split; vm_compute; reflexivity. Qed.
+Example nx_not_disciplined : vs_file true true nx_file = false.
+Proof. vm_compute. reflexivity. Qed.
+
+(* NEGATIVE 2: `supplied_declared` matters (Appendix D).  The accepted program above defines `x`; a caller that supplies
+   an UNDECLARED global named x makes both interpreters fail with DuplicateVariable *)
+Example ex_undeclared_supplied_global : exists e1 e2,
+  run_strict lz_tree vx_checked config0 [[(vx_x, VInt 7)]] None [] vx_find lz_call 30 [[vx_match]] [] = Err e1 /\
+  run_lazy lz_tree vx_checked config0 [[(vx_x, VInt 7)]] None [] vx_find lz_call 30 [(0, vx_match)] [] = Err e2 /\
+  root_cause e1 = EDuplicateVariable /\ root_cause e2 = EDuplicateVariable /\ scoped_duplicate e2 = false.
+Proof. do 2 eexists. repeat split; vm_compute; reflexivity. Qed.
+
+(* NEGATIVE 3: `shorthands_scope_ok` matters (K4).  attribute sh = x => a = nope ; (..) @m { node n  attr (n) sh = 1 }
+   is accepted, and both interpreters fail with UndefinedVariable inside the shorthand body *)
+Definition kx_file : file :=
+  {| f_globals := []; f_inherited := [];
+     f_shorthands := [{| sh_name := [115; 104]; sh_var := [120]; sh_vloc := k4_l;
+                         sh_attrs := [Attr [97] (EUnscoped [110; 111; 112; 101] k4_l)]; sh_loc := k4_l |}];
+     f_stanzas := [{| st_stmts := [SNode (VarU [110] k4_l) [110] k4_l;
+                                   SAttrNode (EUnscoped [110] k4_l) [Attr [115; 104] (EInt 1)] k4_l];
+                      st_full_stanza_idx := 0; st_full_file_idx := unresolved; st_start := k4_l |}] |}.
+Example kx_shorthand_body_unchecked : exists fl e1 e2,
+  check_file k4_tables kx_file = CkOk fl /\ shorthands_scope_ok fl = false /\
+  run_strict lz_tree fl config0 [] None [] vx_find lz_call 30 [[[(0, [0])]]] [] = Err e1 /\ root_cause e1 = EUndefinedVariable /\
+  run_lazy lz_tree fl config0 [] None [] vx_find lz_call 30 [(0, [(0, [0])])] [] = Err e2 /\ root_cause e2 = EUndefinedVariable.
+Proof. do 3 eexists. split; [vm_compute; reflexivity|]. repeat split; vm_compute; reflexivity. Qed.
+
+(* THE DISJUNCTS ARE REAL: (..) @m { let @m.v = 1  let @m.v = 2 } is accepted (the checker has no rule about scoped
+   variables); the strict interpreter fails with the bare DuplicateVariable — the file has a scoped target —, the lazy one
+   with the two-statement form *)
+Definition sx_file : file :=
+  {| f_globals := []; f_inherited := []; f_shorthands := [];
+     f_stanzas := [{| st_stmts := [SLet (VarS k4_cap [118] k4_l) (EInt 1) (1, 0); SLet (VarS k4_cap [118] k4_l) (EInt 2) (2, 0)];
+                      st_full_stanza_idx := 0; st_full_file_idx := unresolved; st_start := k4_l |}] |}.
+Example sx_scoped_duplicate : exists fl e1 e2,
+  check_file k4_tables sx_file = CkOk fl /\ file_sd fl = true /\ file_sr fl = false /\
+  run_strict lz_tree fl config0 [] None [] vx_find lz_call 30 [[[(0, [0])]]] [] = Err e1 /\ root_cause e1 = EDuplicateVariable /\
+  run_lazy lz_tree fl config0 [] None [] vx_find lz_call 30 [(0, [(0, [0])])] [] = Err e2 /\ root_cause e2 = EDuplicateVariable /\
+  scoped_duplicate e2 = true.
+Proof. do 3 eexists. split; [vm_compute; reflexivity|]. repeat split; vm_compute; reflexivity. Qed.
+(* and a scoped READ of a variable nobody defined: strict reports UndefinedVariable (the file has a scoped read) *)
+Definition sy_file : file :=
+  {| f_globals := []; f_inherited := []; f_shorthands := [];
+     f_stanzas := [{| st_stmts := [SPrint [EScoped k4_cap [118] k4_l] k4_l];
+                      st_full_stanza_idx := 0; st_full_file_idx := unresolved; st_start := k4_l |}] |}.
+Example sy_scoped_undefined : exists fl e1,
+  check_file k4_tables sy_file = CkOk fl /\ file_sr fl = true /\
+  run_strict lz_tree fl config0 [] None [] vx_find lz_call 30 [[[(0, [0])]]] [] = Err e1 /\ root_cause e1 = EUndefinedVariable.
+Proof. do 2 eexists. split; [vm_compute; reflexivity|]. repeat split; vm_compute; reflexivity. Qed.
